@@ -15,8 +15,10 @@ LEVEL = 'model_checking'
 TARGETS = sched.TARGETS + ['valjean.cosette.env:Env.merge_done_tasks']
 ASSUMPTIONS = sched.ASSUMPTIONS + [
     'inductive step over histories: the initial environment is arbitrary under the invariant of carried-over environments: every present '
-    'entry is DONE with its (old) result and clocks start <= end < now, and a present dependency of a present task ended before the task started; '
-    'any subset of entries may be missing (failed, lost, newly added tasks)',
+    'entry is DONE with its (old) result and clocks start <= end < now; any subset of entries may be missing (failed, lost, newly added tasks). '
+    'For the SECOND clause (no needless re-execution) the persisted clocks are also consistent with the current graph (a present dependency of a '
+    'present task ended before the task started); the FIRST clause is asked without that assumption, so that dependency edges added between two '
+    'runs (between tasks whose executions overlapped earlier) are inside the quantifier',
     'time.time() of this run returns instants later than every persisted one']
 OUTSIDE = sched.OUTSIDE + ['the byte-level persistence of environments (C14)']
 BOUNDS = {'quick': {'tasks': '2 (all 3 graphs, 1 worker), 3-task chain with 1 worker; + a chain whose soft dependent is created BEFORE its dependency',
@@ -56,10 +58,16 @@ def init(prod):
         for f in prod.schema.fields:
             if f not in ('status', 'result', 'start_clock', 'end_clock'):
                 cs.append(z3.Not(p[f'h{i}_{f}']))
-        for j in props.deps_of(cfg, i):
-            cs.append(z3.Implies(z3.And(p[f'p{i}'], p[f'p{j}']), p[f'v{j}_end_clock'] <= p[f'v{i}_start_clock']))
     cs.append(p['clk'] < 40)
     return z3.And(*cs)
+
+
+def ordered(cfg, s0):
+    """the persisted records are consistent with the CURRENT graph: a present dependency of a present task ended before the task
+    started.  Assumed by the second clause only; the first clause is asked from environments that violate it too (a dependency
+    edge added between two runs, between tasks that overlapped in an earlier run)"""
+    return z3.And(*[z3.Implies(z3.And(s0[f'p{i}'], s0[f'p{j}']), s0[f'v{j}_end_clock'] <= s0[f'v{i}_start_clock'])
+                    for i in range(cfg.n) for j in props.deps_of(cfg, i)])
 
 
 def _is(p, i, st):
@@ -144,7 +152,7 @@ def prop(an, prod):
                           sK[f'h{i}_start_clock'], sK[f'v{i}_start_clock'] == s0[f'v{i}_start_clock'],
                           sK[f'h{i}_end_clock'], sK[f'v{i}_end_clock'] == s0[f'v{i}_end_clock'])
             bad.append(z3.And(pre, z3.Not(same)))
-        return z3.And(u.at(u.K, finished(prod)), z3.Or(*bad))
+        return z3.And(ordered(cfg, s0), u.at(u.K, finished(prod)), z3.Or(*bad))
     return {'init': init, 'model_extra': C03.model_extra(cfg), 'replay_kwargs': C03.replay_kwargs_for(cfg),
             'queries': [(Q1, lambda u: u.at(u.K, z3.And(finished(prod), stale(prod))), confirm1),
                         (Q2, q2, confirm2)]}
